@@ -218,7 +218,11 @@ def layer_b_case(arg):
     if rc != 0 or not os.path.exists(tdda):
         problems.append('tdda discover exited %d without writing the constraints file: %s' % (rc, err[-200:]))
         return idx, fmt, problems
-    cli_cs = json.load(open(tdda, encoding='utf-8'))
+    try:
+        cli_cs = json.load(open(tdda, encoding='utf-8'))
+    except ValueError as e_:
+        problems.append('tdda discover wrote a constraints file that is not valid JSON (%s); columns %r' % (str(e_)[:100], list(df.columns)))
+        return idx, fmt, problems
     if strip_meta(cli_cs) != strip_meta(json.loads(lib_cs.to_json())):
         problems.append('discover: command line %r, library %r' % (strip_meta(cli_cs), strip_meta(json.loads(lib_cs.to_json()))))
     if fmt == 'csv':
